@@ -239,6 +239,19 @@ fn oracle_encodings(ec: &EncCase, obs: &mut Obs) -> Result<(), Violation> {
     let sw = essential_sign::encode::signature(&rsig);
     ensure!(sw[..8] == bytes_to_words(&sig.0)[..] && sw[8] == sig.1 as i64, "sig:sig-encoding", "encode::signature is not [8 BE words of the compact signature, recovery id]");
     ensure!(essential_sign::encode::signature_as_bytes(&rsig)[..] == words_to_bytes(&sw)[..], "sig:sig-bytes", "signature_as_bytes is not the BE bytes of the words");
+    // message-level helpers agree with the hash-level ones
+    let msg = essential_sign::secp256k1::Message::from_digest(ec.digest);
+    ensure!(essential_sign::sign_message(&msg, &sk) == sig, "sig:sign-message", "sign_message and sign_hash disagree");
+    ensure!(essential_sign::recover_from_message(&msg, &sig).ok() == Some(pk), "sig:recover-message", "recover_from_message does not return the signer");
+    ensure!(essential_sign::verify_message(&msg, &sig.0, &pk).is_ok(), "sig:verify-message", "verify_message rejects a valid signature");
+    let other = public(&secret(&ec.digest));
+    if other != pk {
+        ensure!(essential_sign::verify_message(&msg, &sig.0, &other).is_err(), "sig:verify-message", "verify_message accepts the signature for a different public key");
+    }
+    let mut other_digest = ec.digest;
+    other_digest[0] ^= 1;
+    let msg2 = essential_sign::secp256k1::Message::from_digest(other_digest);
+    ensure!(essential_sign::verify_message(&msg2, &sig.0, &pk).is_err(), "sig:verify-message", "verify_message accepts the signature for a different message");
     // the VM consumes exactly digest ++ signature words and produces exactly the public key words
     let mut case = ExecCase::simple(vec![crate::model::ops::MOp::RSECP]);
     case.init.stack = bytes_to_words(&ec.digest);
